@@ -129,7 +129,24 @@ def dbBatch (env : Env) (db : Db) (ctx : Ctx) (body : List Step) : TxOut :=
     | .ok => commit env.later b 2 a.st.preLog a.preRan a.st.raised
     | .err e => rollback db b e 2 a.st.preLog a.preRan a.st.raised
 
-inductive Mode | update | batch
+/-- a context the caller builds around a bbolt transaction it got elsewhere:
+    `db.Update(nil, func(outer) { ctx := boltz.NewTxMutateContext(c, outer.Tx()); … work with ctx … })` (the
+    exported API hands out a write transaction only through a running Db.Update / Batch).
+    NewTxMutateContext binds the fresh context to the transaction with setTx, so its handleCommit is an
+    OnCommit handler of that transaction and its commit actions run when it commits; nothing ever runs
+    ITS pre-commit actions (runPreCommitActions is called on the outer context, which has none); the
+    enclosing Db.Update registers the tx-complete listeners as usual; a nested Db.Update / Batch with the
+    new context just runs its function.  (The outer context's own handleCommit runs an empty list — not
+    modelled as an entry.) -/
+def dbRaw (env : Env) (db : Db) (body : List Step) : TxOut :=
+  let r := runSteps env body (beginTx db Ctx.empty)
+  match r.2 with
+  | .ok =>
+    let st := if env.txListeners > 0 then r.1.enqueue .txComplete else r.1
+    commit env { st := st, res := .ok, preRan := [] } 1 [] [] []
+  | .err e => rollback db { st := r.1, res := .err e, preRan := [] } e 1 [] [] []
+
+inductive Mode | update | batch | raw
   deriving DecidableEq, Repr
 
 structure TxSpec where
@@ -144,6 +161,7 @@ def runTx (env : Env) (db : Db) (prevCtx : Ctx) (tx : TxSpec) : TxOut :=
   match tx.mode with
   | .update => dbUpdate env db ctx tx.body
   | .batch => dbBatch env db ctx tx.body
+  | .raw => dbRaw env db tx.body
 
 /-- a history of transactions on one database -/
 def runCase (env : Env) : List TxSpec → Db → Ctx → List TxOut
